@@ -625,24 +625,43 @@ func coarseSign(l Lit, kind string, bits int) string {
 }
 
 // ctxClass groups the consuming contexts: value (the folded value is
-// already wrong when returned as is); num (run-time consumers that look at
-// the constant as a number of its type: comparisons, division, modulo);
-// chain (consumers that are folded themselves: >> 1, << 1, widening cast);
-// wrap (run-time consumers that depend on the low N bits only); bool
-// (consumers of a folded boolean).
+// already wrong when returned as is); shape (the low N bits are right but a
+// consumer that looks at the constant as a number of its type - comparison,
+// division, modulo, or the folded consumers >> 1, << 1, widening cast - sees
+// another number); wrap (run-time consumers that depend on the low N bits
+// only); bool (consumers of a folded boolean).
 func ctxClass(name string, boolResult bool) string {
 	if boolResult {
 		return "bool"
 	}
 	switch name {
-	case "lt", "rlt", "ge", "eq", "if", "div", "mod":
-		return "num"
-	case "shr", "shl", "widen":
-		return "chain"
+	case "lt", "rlt", "ge", "eq", "if", "div", "mod", "shr", "shl", "widen":
+		return "shape"
 	case "add", "radd", "sub", "rsub", "mul", "xor", "band":
 		return "wrap"
 	}
 	return name
+}
+
+// worstSign returns the operand class of the case for signatures: the
+// "worst" class among the operands in the order neg > top > msb > pos.
+func (cs Case) worstSign() string {
+	op := ops[cs.Op]
+	classes := []string{coarseSign(cs.A, cs.Kind, cs.Bits)}
+	if !op.unary && !op.shift {
+		classes = append(classes, coarseSign(cs.B, cs.Kind, cs.Bits))
+	}
+	if cs.Kind == "bool" {
+		return strings.Join(classes, ",")
+	}
+	for _, want := range []string{"neg", "top", "msb"} {
+		for _, c := range classes {
+			if c == want {
+				return want
+			}
+		}
+	}
+	return "pos"
 }
 
 func (cs Case) signature(ctx string) string {
@@ -652,22 +671,20 @@ func (cs Case) signature(ctx string) string {
 	if kind == "bool" {
 		wc = "1"
 	}
-	signs := coarseSign(cs.A, cs.Kind, cs.Bits)
+	signs := cs.worstSign()
 	switch {
 	case cs.Op == "cast":
+		// Casts: direction and target kind instead of the operand
+		// class (the combinations are rare events otherwise).
 		dir := "widen"
 		if cs.Bits2 < cs.Bits {
 			dir = "narrow"
 		}
-		signs += fmt.Sprintf(",%s-%s", dir, cs.Kind2)
+		signs = fmt.Sprintf("%s-%s", dir, cs.Kind2)
 	case op.shift:
-		if parse(cs.B.V).Int64() < int64(cs.Bits) {
-			signs += ",k<N"
-		} else {
+		if parse(cs.B.V).Int64() >= int64(cs.Bits) {
 			signs += ",k>=N"
 		}
-	case !op.unary:
-		signs += "," + coarseSign(cs.B, cs.Kind, cs.Bits)
 	}
 	return fmt.Sprintf("%s/%s/%s/%s/%s", op.name, kind, wc, signs, ctx)
 }
@@ -961,7 +978,13 @@ func evaluateOp(cs Case, checkOperands bool) ([]ev.Outcome, ev.Outcome) {
 				col.Count("chained_consumer_defect_not_attributed", 1)
 				continue
 			}
-			fails = append(fails, ev.Fail(prefix+cs.signature(ctx),
+			sig := prefix + cs.signature(ctx)
+			if !r.folded {
+				// Not folded: not evidence for the property, one
+				// signature per operator, kind and width class.
+				sig = fmt.Sprintf("nofold/%s/%s/%s", op.name, cs.Kind, widthClass(cs.Bits))
+			}
+			fails = append(fails, ev.Fail(sig,
 				"folded and run-time results differ in context %s: %s", r.name, r.diff))
 		}
 	}
